@@ -224,6 +224,11 @@ class P(Service):
     def itemspin(ctx):
         return 5
 
+    # the other placeholder spelling
+    @rpc(Unicode, _returns=Integer, _patterns=[HttpPattern('/pin/{pin_id}', verb='GET')])
+    def pin(ctx, pin_id):
+        return 7
+
     # no explicit address: the pattern answers at the registered (in-message) name, not at the function's name
     @rpc(_returns=Integer, _in_message_name='ting', _patterns=[HttpPattern(verb='GET')])
     def get_ting(ctx):
@@ -233,7 +238,7 @@ class P(Service):
 # the reference routing table, written down independently of what spyne compiles: (registered name, whole-path
 # regular expression, verb expression); literal addresses are listed before the one with a placeholder
 REF_ROUTES = [('itemspin', r'/item/spin', 'GET'), ('ping', r'/ping', None), ('ting', r'/ting', 'GET'), ('user', r'/user', 'GET'),
-              ('userping', r'/user/ping', '(GET|POST)'), ('item', r'/item/[^/]*', 'GET')]
+              ('userping', r'/user/ping', '(GET|POST)'), ('item', r'/item/[^/]*', 'GET'), ('pin', r'/pin/[^/]*', 'GET')]
 
 
 PAPP = Application([P], TNS, in_protocol=HttpRpc(), out_protocol=JsonDocument())
@@ -243,7 +248,7 @@ PW = WsgiApplication(PAPP)
 @harness('C11', tier_params={'quick': [1, 4, 5, 6, 7, 8, 9, 10, 11], 'thorough': list(range(1, 14))}, label=lambda L: 'pathlen=%d' % L,
          functions=['spyne.server.http.HttpBase.match_pattern', 'spyne.protocol.http.HttpPattern._compile_url_pattern'],
          bounds={'path': 'every path of the given lengths over the characters of the registered addresses '
-                         '(/user, /item/<item_id>, /item/spin, /ping, /user/ping, and /ting for an address-less pattern of a method registered under a custom name) plus foreign characters; verbs GET, POST, PUT'})
+                         '(/user, /item/<item_id>, /pin/{pin_id}, /item/spin, /ping, /user/ping, and /ting for an address-less pattern of a method registered under a custom name) plus foreign characters; verbs GET, POST, PUT; on a fresh transport or after one earlier request (/item/42 or /pin/x) on the same transport'})
 def http_pattern(sx, L):
     """HttpPattern routing: the method whose address pattern matches the *whole* path (and whose verb matches) is
     selected; a path that merely starts with, ends with or resembles a registered address selects nothing"""
@@ -252,8 +257,13 @@ def http_pattern(sx, L):
     verb = sx.choose('verb', ['GET', 'POST', 'PUT'])
     env = {'REQUEST_METHOD': verb, 'PATH_INFO': '/', 'QUERY_STRING': '', 'SERVER_NAME': 'localhost',
            'SERVER_PORT': '80', 'wsgi.url_scheme': 'http'}
-    ctx = WsgiMethodContext(PW, env, 'text/plain')
-    params = PW.match_pattern(ctx, verb, path, 'localhost')
+    # routing does not depend on what the transport served before
+    pw = WsgiApplication(PAPP)
+    earlier = sx.choose('earlier_request', [None, '/item/42', '/pin/x'])
+    if earlier is not None:
+        pw.match_pattern(WsgiMethodContext(pw, dict(env, REQUEST_METHOD='GET'), 'text/plain'), 'GET', earlier, 'localhost')
+    ctx = WsgiMethodContext(pw, env, 'text/plain')
+    params = pw.match_pattern(ctx, verb, path, 'localhost')
     got = ctx.method_request_string
     sx.observe('selected', got)
     # reference: among the patterns whose address matches the whole path (and whose verb matches), a literal
